@@ -402,9 +402,10 @@ def stream_grid(ck):
     quick = ck.tier == "quick"
     ck.stream("evolution-grid", "systematic grid {QubitOperator, FermionOperator (jw, bk, scbk, jkmn)} x {scalar time, per-term time dictionary with distinct times} x "
               "n_trotter_steps {1,2,3} x order {1,2} x control lists of length 0,1,2,3 (not containing / containing qubit 0), commuting operators WITH an identity "
-              "term, real coefficients and times: ||circuit*phase - ctrl(expm(-i sum_k t_k c_k H_k))||_2 <= 1e-9; a raising call is a violation carrying the case "
+              "term, real coefficients and times — half of the cases generic reals, half with per-step rotations c_k t_k / n that are EXACT multiples of pi (odd and even k; "
+              "exp(-i k pi P) = (-1)^k must not be lost: relative phase under control, returned phase without) —: ||circuit*phase - ctrl(expm(-i sum_k t_k c_k H_k))||_2 <= 1e-8; a raising call is a violation carrying the case "
               "(several controls including qubit 0 + identity term was the recorded finding, repaired by fix ae252bf)")
-    q_controls = [None, 4, [4], [4, 5], [5, 4, 6], [0], [0, 4], [4, 0], [0, 4, 5]]
+    q_controls = [None, 4, 0, [4], [4, 5], [5, 4, 6], [0], [0, 4], [4, 0], [0, 4, 5]]      # 0 as a plain integer is a control, not 'no control'
     f_controls = [None, [4], [5, 4], [4, 5, 6]]
     mappings = ["jw", "bk", "scbk", "jkmn"]
     reps = 1 if quick else 4
@@ -416,7 +417,8 @@ def stream_grid(ck):
                     combo += 1
                     ctrls = q_controls if kind == "qubit" else f_controls
                     for control in ctrls:
-                        for _ in range(reps):
+                        for rep_i in range(2 * reps):
+                            pi_mult = rep_i % 2 == 1      # every second case: per-step coefficients c_k t_k / n that are EXACT multiples of pi
                             if kind == "qubit":
                                 # commuting family on qubits 1..3 (qubit 0 is left free so that it can be a control), identity term always present
                                 fam = rng.choice([[[(1, "Z")], [(2, "Z"), (3, "Z")], [(1, "Z"), (3, "Z")]],
@@ -434,13 +436,30 @@ def stream_grid(ck):
                                 terms = [(k, rng.uniform(-2, 2)) for k in keys]
                                 mapping = mappings[(combo + len(keys)) % 4]
                             time = [rng.uniform(-2.5, 2.5) for _t in terms] if dict_time else rng.uniform(-2.5, 2.5)
+                            if pi_mult:
+                                # exp(-i k pi P) = (-1)^k: odd and even k, each term with its own time; the coefficient is chosen so that the
+                                # rotation of ONE step (and of each half step for order 2) is k*pi: c_k = f k n pi / t_k.  For a number operator
+                                # n_p = (1 - Z_p)/2 the Pauli coefficient is -c/2 (c/4 for n_p n_q), hence the extra factor.
+                                tset = [1.0, 2.0, 0.5, -1.0, 0.75, -2.0]
+                                time = [rng.choice(tset) for _t in terms] if dict_time else rng.choice(tset)
+                                tk = time if dict_time else [time] * len(terms)
+                                f = 2 if order == 2 else 1
+                                new_terms = []
+                                for (key, c), t_k in zip(terms, tk):
+                                    if rng.random() < 0.75:
+                                        k = rng.choice([-3, -2, -1, 1, 2, 3, 1, -1])
+                                        g = 1 if kind == "qubit" else (2 if len(key) == 2 else 4)
+                                        c = g * f * k * n * math.pi / t_k
+                                    new_terms.append((key, c))
+                                terms = new_terms
                             e, d = grid_case(kind, terms, time, n, order, control, mapping)
                             cs = ctrl_list(control)
-                            cls = "ctrl%d%s" % (len(cs), "-with-qubit0" if 0 in cs else "")
+                            cls = "ctrl%d%s%s" % (len(cs), "-with-qubit0" if 0 in cs else "", "/pi-multiple-coefficients" if pi_mult else "")
                             ck.case("evolution-grid", repr((kind, terms, time, n, order, control, mapping)), nontrivial=True,
                                     sample={"kind": kind, "terms": repr(terms), "time": time, "n": n, "order": order, "control": control, "mapping": mapping,
                                             "raised": repr(e) if e is not None else None, "deviation": d},
-                                    tags=[kind, "dict" if dict_time else "scalar", "n%d" % n, "order%d" % order, cls] + ([mapping] if mapping else []))
+                                    tags=[kind, "dict" if dict_time else "scalar", "n%d" % n, "order%d" % order, cls.split("/")[0], "pi-multiples" if pi_mult else "generic"]
+                                    + ([mapping] if mapping else []))
                             rep = {"kind": "grid", "op_kind": kind, "terms": terms, "time": time, "n": n, "order": order, "control": control, "mapping": mapping}
                             if e is not None:
                                 if kind == "qubit" and isinstance(e, ValueError) and len(cs) >= 2 and 0 in cs:
